@@ -4,7 +4,7 @@ import math
 
 import numpy as np
 from hypothesis import strategies as st
-from hypothesis import target
+from vlib.harness import target
 
 from vlib.harness import Sub, Violation, call, require, value
 
